@@ -95,6 +95,8 @@ fn main() {
         "c13" => c13::c13(&args),
         #[cfg(not(miri))]
         "c13replay" => c13::c13_replay(&args),
+        #[cfg(not(miri))]
+        "c13growth" => c13::c13_growth(&args),
         "c12" => checks::c12(&args),
         "c11" => checks::c11(&args),
         "c11replay" => checks::c11_replay(&args),
